@@ -42,7 +42,9 @@ def run_real(argv, files, src_path, timeout=120, start_method=None):
         env.pop("PYTHONHASHSEED", None)
         stdin = subprocess.DEVNULL
         if real_argv and real_argv[-1] == "-":
-            cands = sorted(p for p in files if p == SIMFS + "in" or p.startswith(SIMFS + "in."))
+            from . import gen as _gen
+
+            cands = sorted(p for p in files if _gen.is_input_name(p))
             stdin = open(os.path.join(d, cands[0][len(SIMFS):]), "rb")
         cmd = [sys.executable, "-m", "cutadapt"]
         if start_method:
